@@ -893,10 +893,32 @@ def run_c13(prop, tier, seed, replay, t0):
         # half: malformed frames on raw connections; half: ordinary histories (catalogue, storage, users) with the
         # HTTP API carrying about half of the requests - every request and response then crosses JSON/HTTP
         # (real server handlers and mappers, real SDK HttpClient) and is compared with the same model
+        if k is not None and k % 8 == 3:
+            # every entity listing over BOTH transports while the group has several members (the per-member
+            # figures of the HTTP mapper only differ from the group's when there are at least two)
+            cfg = gen_storage.draw_cfg(rng, k, {"dedup": 0, "http": 1})
+            np_ = rng.choice([2, 3, 4, 5])
+            ops = ["conn 0 tcp", "login 0 iggy iggy", "conn 77 http", "login 77 iggy iggy", "clock 1000000",
+                   "create-stream 0 1 s1", f"create-topic 77 #1 1 t1 {np_} never unlimited -", "create-group 0 #1 #1 1 g1",
+                   "create-group 77 #1 #1 2 g2", "clock 1000010", "send 77 #1 #1 pid:1 1:20:101:1,2:50:102:0"]
+            members = rng.randint(2, 4)
+            for c in range(1, members + 1):
+                ops += [f"conn {c} tcp", f"login {c} iggy iggy", f"me {c}", f"join {c} #1 #1 #1"]
+                if rng.random() < 0.5:
+                    ops.append(f"join {c} #1 #1 #2")
+                for who in (0, 77):
+                    ops += [f"group {who} #1 #1 #1", f"group {who} #1 #1 #2", f"groups {who} #1 #1"]
+            for who in (0, 77):
+                ops += [f"streams {who}", f"stream {who} #1", f"topics {who} #1", f"topic {who} #1 #1", f"users {who}",
+                        f"stats {who}", f"poll {who} #1 #1 1 c:#5 offset:0 10 0", f"get-offset {who} #1 #1 1 c:#5"]
+            c = rng.randint(1, members)
+            ops += [f"leave {c} #1 #1 #1", "group 0 #1 #1 #1", "group 77 #1 #1 #1", f"create-parts 77 #1 #1 {rng.randint(1, 2)}",
+                    "group 0 #1 #1 #1", "group 77 #1 #1 #1", f"close {rng.randint(1, members)}", "group 77 #1 #1 #1", "group 0 #1 #1 #1"]
+            return cfg, ops
         if k is None or k % 2 == 0:
             return gen_malformed.gen(rng, focus, k, maxops)
         g = [gen_catalog.gen, gen_storage.gen, gen_auth.gen][(k // 2) % 3]
-        cfg, ops = g(rng, {0: "C06", 1: "C02", 2: "C10"}[(k // 2) % 3], k, maxops)
+        cfg, ops = g(rng, {0: rng.choice(["C06", "C08", "C08"]), 1: "C02", 2: "C10"}[(k // 2) % 3], k, maxops)
         if rng.random() < 0.4:
             # server-side encryption on: the poll response is assembled from decrypted payloads
             import gen_crypto
@@ -904,7 +926,7 @@ def run_c13(prop, tier, seed, replay, t0):
         return gen_http.httpify(rng, cfg, ops, share=0.7 if rng.random() < 0.7 else 0.0)
     return run_node_property(
         prop, tier, seed, None, t0, module=module, gen=mixed, n_quick=128, n_thorough=2500, http=False,
-        spec_prefixes=["malformed-frame-effect", "obs-changed", "poll-", "get-offset", "store-offset", "figures-"], corr_kinds=None,
+        spec_prefixes=["malformed-frame-effect", "malformed-frame-accepted", "obs-changed", "poll-", "get-offset", "store-offset", "figures-", "group-"], corr_kinds=None,
         assumptions=ASSUME_NODE + [
             "HTTP/JSON: not modelled byte by byte; half of the node histories send about 70% of their requests through the real HTTP API (server handlers + SDK HttpClient) and every answer is compared with the same model; QUIC (same binary codec) is not driven",
             "responses: the model covers the response frame; the per-entity response mappers (server binary/mapper.rs vs sdk binary/mapper.rs) are exercised end-to-end by every node history of every property (real server mapper -> real SDK decoder -> compared with the model's expected data), not modelled byte by byte",
